@@ -1,7 +1,7 @@
 (* Entry points of the executable model, by name. One dispatcher so that the OCaml driver and
    the in-Coq case files need no per-function glue. *)
 From Coq Require Import ZArith NArith List String Bool.
-From Sia Require Import Prim.Result Prim.Tok Currency.Model Merkle.Tree Merkle.Forest Merkle.Acc Merkle.Rhp Policy.Model Pow.Model Codec.Schema Codec.Shape Codec.Irregular Gen.Schemas Ledger.Types Ledger.Mid Ledger.Validate Ledger.Apply.
+From Sia Require Import Prim.Result Prim.Tok Currency.Model Merkle.Tree Merkle.Forest Merkle.Acc Merkle.Rhp Policy.Model Pow.Model Codec.Schema Codec.Shape Codec.Irregular Gen.Schemas Ledger.Types Ledger.Mid Ledger.Validate Ledger.Apply Hash.Ids.
 Import ListNotations.
 Open Scope string_scope.
 Open Scope list_scope.
@@ -129,6 +129,7 @@ Section Dispatch.
   Fixpoint find_type (n : string) (l : list (string * shape * shape)) : option (shape * shape) :=
     match l with [] => None | (m, e, d) :: r => if String.eqb n m then Some (e, d) else find_type n r end.
   Definition api_c11 (name : string) (args : list tok) : option (list tok) :=
+    if negb ((name =? "c11.recode") || (name =? "c11.decode")) then None else
     match args with
     | [TB tn; TB b] =>
       let tname := string_of_bytes tn in
@@ -408,6 +409,9 @@ Section Dispatch.
     | None =>
     match name, args with
     | "hash", [TB b] => [TB (H b)]
+    | "c12.derive", [TB nm; TB i; TZ k] => [TB (derive H nm (id_index_args i (Z.to_N k)))]
+    | "c12.derive1", [TB nm; TB i] => [TB (derive H nm i)]
+    | "c12.raw", [TB i; TZ k] => [TB (H (id_index_args i (Z.to_N k)))]
     | "c05.run", _ => api_c05 args
     | "c05.leafhash", [TB e; TZ i; TZ s] => [TB (leaf_hash H (mkLeaf e (Z.to_N i) (negb (Z.eqb s 0))))]
     | "c05.proofroot", TB x :: TZ i :: ps => [TB (proofRootN H x (Z.to_N i) (List.concat (map (fun t => match t with TB b => [b] | _ => [] end) ps)))]
